@@ -1,0 +1,19 @@
+//go:build verif
+
+package diskpacked
+
+import "os"
+
+// VerifOnPunch makes the removal of a blob call fn (with the pack file's name)
+// at the moment it starts destroying the blob's data, and fall back to zero
+// filling instead of punching a hole. It returns a function that restores the
+// previous behaviour. It exists only under the "verif" build tag, so that the
+// verification harness in /verif can look at the pack file at that instant.
+func VerifOnPunch(fn func(packFile string)) (restore func()) {
+	old := punchHole
+	punchHole = func(f *os.File, offset, size int64) error {
+		fn(f.Name())
+		return errNoPunch
+	}
+	return func() { punchHole = old }
+}
